@@ -80,6 +80,11 @@ NOTES = {
  "C12-7a": "needs a second connection: invisible to C12's single connection by nature; C10 reached the blocked state but ended in a harness error (IndexError in the serial-order search), now reported as 'requests never answered'",
  "C07-7a": "a concurrency change (informational requests served without the lock): invisible to C07's sequential histories by nature, caught by C10 (schedules)",
  "C05-7a": "caught by the first run with a single case: all-zero / all-False wrapping parameters were promoted from a rarely drawn probe class into the bulk",
+ "C01-8a": "first run of C01 (tools/selftest.sh) missed it (values were encoded once and never changed afterwards): new oracle - encode, change a nested field through its setter, encode again, compare with a value built that way",
+ "C02-8a": "first run of C02 (tools/selftest.sh) missed it (identifiers of a few characters): requests with identifiers of 1000-5000 characters",
+ "C08-8a": "first run of C08 (tools/selftest.sh) missed it (Revoke never carried a Compromise Occurrence Date): Revoke items with that date at the edges of its range",
+ "C13-8a": "first run of C13 (tools/selftest.sh) missed it (stored private keys were plain RSA): grid block of keys with unusual stored material read back with every Key Format Type",
+ "C16-8a": "first run of C16 (tools/selftest.sh) missed it (the echo part sent no Maximum Response Size): part a gained requests with a Maximum Response Size of 0, 1 and 64 under every version",
 }
 rows = {}
 for log in sys.argv[1:]:
